@@ -1,6 +1,6 @@
 (** C05 — Vary: a stored variant is only served to requests that select it. Statements only. *)
-From Coq Require Import Sorting.Sorted.
-From KV Require Import Bytes RustInt Range CacheControl Cache CacheProofs Fixture RustStd Vary VaryProofs.
+From Coq Require Import Sorting.Sorted Lia ZifyBool ZifyNat ZifyN.
+From KV Require Import Bytes RustInt Range CacheControl Cache CacheProofs Fixture RustStd Vary VaryProofs VaryWire VaryWireProofs.
 Open Scope N_scope.
 
 Section C05.
@@ -184,6 +184,145 @@ Section C05_C03.
   Qed.
 End C05_C03.
 
+(** ---- (5) on the wire: what [SendKind::send] leaves of the [vary] header ---- *)
+Section C05_wire.
+  Variable hstate : Type.
+  Variable compute : hstate -> request -> bool -> fat * hstate * list bytes.
+  Variable cache_on : bool.
+  Variable ims_on : bool.
+  Variable parse_ims : bytes -> option Z.
+  Variable sanitize_ok : request -> bool.
+  Variable prime : request -> request.
+  Variable negotiate : request -> fat -> option (N * bytes).
+  Variable rules_of : bytes -> list rule.
+  Variable dbg : bool.
+  (** the operator's Package extensions, the body of the host's 416 page — arbitrary *)
+  Variable package : request -> list (bytes * bytes) -> list (bytes * bytes).
+  Variable err416_body : bytes.
+
+  (** for every history from every cache state that satisfies the invariant, whatever the sanitize verdict and
+      the requested range of each request: every response [send] (as repaired) passes to the connection with a
+      non-empty body — the reply of [handle_cache], a range cut out of it, or the 416 page that replaces it —
+      carries [vary: accept-encoding, range, <the page's rule headers in rule order>], provided the Package
+      extensions leave [vary] alone.  A HEAD request gets the same head (the body is withheld after it). *)
+  Theorem wire_vary_advertised : forall ops c hs now,
+    InvV hstate compute rules_of c ->
+    (forall r hs0, assoc (B "vary") (package r hs0) = assoc (B "vary") hs0) ->
+    exists l,
+      runV hstate compute cache_on ims_on parse_ims sanitize_ok prime negotiate rules_of dbg (c, hs) now ops = Ok l /\
+      Forall2 (fun o (oc : obs * list request) =>
+                 match o, fst oc with
+                 | OReq r0, ObReply rp _ =>
+                     forall san w, send_v rules_of package err416_body true (prime r0) san rp = Ok w -> w_body w <> [] ->
+                       assoc (B "vary") (w_headers w)
+                       = Some (B "accept-encoding, range" ++ concat (map (fun ru => B ", " ++ ru_name ru) (rules_of (rq_path (prime r0)))))
+                 | _, _ => True
+                 end) ops l.
+  Proof. exact (wire_vary_run hstate compute cache_on ims_on parse_ims sanitize_ok prime negotiate rules_of dbg package err416_body). Qed.
+
+  (** when [send] does not replace the response by the 416 page, the [vary] header on the wire is the one
+      [handle_cache] set (repaired or not), and a non-empty body on the wire comes from a non-empty body *)
+  Theorem send_keeps_vary : forall fixed r san rp w,
+    (forall r' hs0, assoc (B "vary") (package r' hs0) = assoc (B "vary") hs0) ->
+    send_v rules_of package err416_body fixed r san rp = Ok w ->
+    ~ (exists rg e, san = Some rg /\ apply_range true rg (rp_status rp) (rp_body rp) = Err e) ->
+    assoc (B "vary") (w_headers w) = assoc (B "vary") (rp_headers rp) /\ (w_body w <> [] -> rp_body rp <> []).
+  Proof. exact (send_keeps_vary_lemma rules_of package err416_body). Qed.
+
+  (** ---- (7) If-Modified-Since: the 304 is decided on the date of the cache entry alone, before the variant
+      vector is looked at: an entry for the request's key, a request that passed sanitize, GET or HEAD, and a
+      date not older than the *entry's* creation minus one second — nothing about the request's own tuple ... ---- *)
+  Theorem not_modified_before_variant_lookup : forall c hs now r0 k e c1,
+    cache_on = true /\ ims_on = true /\ vlookup (prime r0) c now = ((k, Some e), c1) /\
+    sanitize_ok r0 = true /\ get_or_head (rq_method (prime r0)) = true /\
+    (exists v t, header (B "if-modified-since") (prime r0) = Some v /\ parse_ims v = Some t /\ ims_fresh t (ve_created e) = true) ->
+    serveV hstate compute cache_on ims_on parse_ims sanitize_ok prime negotiate rules_of dbg (c, hs) now r0
+    = Ok ((c1, hs), {| rp_status := 304; rp_headers := []; rp_body := []; rp_identity := []; rp_last_modified := ims_on;
+                       rp_from_cache := true |}, [], []).
+  Proof. exact (not_modified_before_lookup hstate compute cache_on ims_on parse_ims sanitize_ok prime negotiate rules_of dbg). Qed.
+
+  (** ... it is truthful towards every client whose copy came out of the entry it is decided on: a request
+      with the same path and an equal transformed list selects, in that entry, the very variant the earlier
+      request was served ... *)
+  Theorem not_modified_same_entry_sound : forall c k e r r1 p,
+    InvV hstate compute rules_of c -> pc_find k c = Some e -> kpath k = rq_path r ->
+    rq_path r1 = rq_path r -> own_tuple rules_of r1 = own_tuple rules_of r ->
+    vr_get_by_request (ve_var e) r1 = Ok (Hit p) ->
+    vr_get_by_request (ve_var e) r = Ok (Hit p) /\ snd p = own_tuple rules_of r.
+  Proof. exact (not_modified_same_entry hstate compute rules_of). Qed.
+
+  (** ... and the value stored under a key never changes under its date: after every step each key holds
+      what it held, nothing, or an entry dated with the time of the step.  (So a date that is fresh for an
+      entry stems from that very entry value, up to the one-second resolution of HTTP dates — C04.) *)
+  Theorem entry_changes_are_dated : forall st now o st' now' ob calls,
+    stepV hstate compute cache_on ims_on parse_ims sanitize_ok prime negotiate rules_of dbg st now o = Ok (st', now', ob, calls) ->
+    forall k, pc_find k (fst st') = pc_find k (fst st) \/ pc_find k (fst st') = None \/
+              exists e', pc_find k (fst st') = Some e' /\ ve_created e' = now.
+  Proof. exact (entry_changes_are_dated_lemma hstate compute cache_on ims_on parse_ims sanitize_ok prime negotiate rules_of dbg). Qed.
+  (** ... over histories.  A client holds the response [f] for the transformed tuple of its request [r], dated
+      [L]: the cache [c2] holds, under one of the two keys of the URL, an entry with that variant which is not
+      older than [L] — or no entry (the response was not stored).  After any history all of whose requests
+      happen later than [L], a request [r'] for the same URL with an equal transformed list finds an entry [e]
+      that is not younger than [L] (this is what the freshness test of the 304 establishes, up to the one-second
+      resolution of HTTP dates: C04) only if that entry still holds [f] for it: "not modified" is the truth.
+      [one_key]: the URL is cached under one of its two keys only (pages that do not switch between the server
+      cache preferences QueryMatters and Full). *)
+  Theorem honest_not_modified_sound : forall L c2 hs2 t1 ops2 c3 hs3 t3 r r' f k e c3',
+    InvV hstate compute rules_of c2 ->
+    (pc_find (key_pq r) c2 = None \/ pc_find (key_p r) c2 = None) ->
+    ((exists k0 e0, (k0 = key_pq r \/ k0 = key_p r) /\ pc_find k0 c2 = Some e0 /\
+                    vr_get_by_request (ve_var e0) r = Ok (Hit (f, own_tuple rules_of r)) /\ L <= ve_created e0)
+     \/ (pc_find (key_pq r) c2 = None /\ pc_find (key_p r) c2 = None)) ->
+    later L t1 ops2 ->
+    runV_state hstate compute cache_on ims_on parse_ims sanitize_ok prime negotiate rules_of dbg (c2, hs2) t1 ops2 = Ok ((c3, hs3), t3) ->
+    path_query r' = path_query r -> own_tuple rules_of r' = own_tuple rules_of r ->
+    vlookup r' c3 t3 = ((k, Some e), c3') -> ve_created e <= L ->
+    vr_get_by_request (ve_var e) r' = Ok (Hit (f, own_tuple rules_of r')).
+  Proof. exact (honest_not_modified hstate compute cache_on ims_on parse_ims sanitize_ok prime negotiate rules_of dbg). Qed.
+
+  (** ... and this is how a client comes to hold a copy in that sense: it was served from the cache (dated with
+      the entry's date), its response was computed and stored (dated with the time of the step = the new
+      entry's date), or computed and pushed into the entry it missed in (dated with the old entry's date; the
+      entry that now holds the variant is dated with the time of the step) *)
+  Theorem served_copy_is_held :
+    (forall r c now k e c1 f,
+       vlookup r c now = ((k, Some e), c1) -> vr_get_by_request (ve_var e) r = Ok (Hit (f, own_tuple rules_of r)) ->
+       holds_copy rules_of c1 r f (ve_created e)) /\
+    (forall c1 hs' now r f lg lm_of cached st' rp lg' calls,
+       may_store cache_on (rq_method r) f = true ->
+       new_and_cache hstate cache_on negotiate rules_of dbg c1 hs' now r f lg lm_of cached = Ok (st', rp, lg', calls) ->
+       holds_copy rules_of (fst st') r f now /\ rp = finishV negotiate r f (own_tuple rules_of r) (lm_of f) cached) /\
+    (forall c hs now r ok k e position headers st' rp lg calls,
+       InvV hstate compute rules_of c -> (k = key_pq r \/ k = key_p r) ->
+       pc_find k c = Some e -> vfresh e now = true -> ve_created e <= now ->
+       vr_get_by_request (ve_var e) r = Ok (Miss position headers) ->
+       vary_missing hstate compute cache_on ims_on negotiate rules_of dbg c hs now r ok k position headers = Ok (st', rp, lg, calls) ->
+       holds_copy rules_of (fst st') r (fst (fst (compute hs r ok))) (ve_created e) /\
+       rp = finishV negotiate r (fst (fst (compute hs r ok))) (own_tuple rules_of r) ims_on true).
+  Proof.
+    exact (conj (hit_gives_copy hstate compute sanitize_ok prime negotiate rules_of dbg)
+            (conj (stored_gives_copy hstate compute cache_on sanitize_ok prime negotiate rules_of dbg)
+                  (pushed_gives_copy hstate compute cache_on ims_on negotiate rules_of dbg))).
+  Qed.
+End C05_wire.
+
+(** (5) before the repair of [send] (model component vary.wire_v0; reproduced on the real code): the 416 page
+    that replaces a response is not empty and carries no [vary] — on the fixture history and for every page *)
+Theorem wire_416_without_vary_v0_refuted :
+  (run_vary_wire_v0 wire416_history = wire416_out_v0 /\ run_vary_wire wire416_history = wire416_out) /\
+  (forall rules_of err416_body r, err416_body <> [] ->
+     exists rp w, rp_body rp <> [] /\
+       send_v rules_of (fun _ hs => hs) err416_body false r (Some (Some (100, 201)))
+              (finishV (fun _ _ => None) r (mkFat 200 [] (B "page") SP_FULL true) (own_tuple rules_of r) true true) = Ok w /\
+       rp = finishV (fun _ _ => None) r (mkFat 200 [] (B "page") SP_FULL true) (own_tuple rules_of r) true true /\
+       w_body w <> [] /\ assoc (B "vary") (w_headers w) = None).
+Proof. exact (conj wire416_v0 send_v0_drops_vary). Qed.
+
+(** (7) "a 304 is only sent to a request whose own transformed tuple is stored" is false of the code (and of
+    the model): the second request's tuple was never computed — the dump shows the only stored variant *)
+Theorem not_modified_only_for_stored_variant_refuted : run_vary ims_history = ims_history_out.
+Proof. exact ims_unselected_variant. Qed.
+
 (** (6) before the repair (model component vary.run_v0): the stale position makes [Vec::insert] panic
     when the entry was replaced by a shorter one, and breaks the order otherwise — after which a cached
     variant is missed, recomputed and stored twice.  Both observed on the real code before the fix. *)
@@ -220,6 +359,16 @@ Example ex_vec_lookups :
   /\ vr_get_by_request ex_vec (ex_req []) = Ok (Miss 2 [(B "x-a", B "d")]).
 Proof. repeat split; vm_compute; reflexivity. Qed.
 
+(** tuples whose components run together to the same text are different keys: the order compares component by
+    component (a comparison of the concatenated values — seeded change C05-1 — would call them equal) *)
+Example ex_ambiguous_tuples_differ :
+  let t1 := [(B "x-a", B "ab"); (B "x-b", B "c")] in
+  let t2 := [(B "x-a", B "a"); (B "x-b", B "bc")] in
+  let t3 := [(B "x-a", B "abc"); (B "x-b", [])] in
+  concat (map snd t1) = concat (map snd t2) /\ concat (map snd t2) = concat (map snd t3) /\
+  cmp_hcoll t1 t2 = Gt /\ cmp_hcoll t2 t3 = Lt /\ cmp_hcoll t1 t3 = Lt /\ hc_eqb t1 t2 = false.
+Proof. repeat split; vm_compute; reflexivity. Qed.
+
 (** the hypotheses of [vary_refines_map] / [computed_once_per_tuple] are satisfiable *)
 Definition ex_compute (hs : N) (r : request) (ok : bool) : fat * N * list bytes :=
   (mkFat 200 [] (B "page") SP_FULL true, hs + 1, [B "h"]).
@@ -253,4 +402,69 @@ Example ex_contract :
 Proof.
   split; [intros hs r [|]; reflexivity|]. split; [reflexivity|]. split; [reflexivity|]. split; [reflexivity|].
   apply cache_rel_nil.
+Qed.
+
+(** ---- non-vacuity of the wire / If-Modified-Since theorems ---- *)
+Example ex_package_keeps_vary : package_keeps_vary (fun _ hs => hs).
+Proof. intros r hs. reflexivity. Qed.
+
+(** a reply that [send] replaces by the 416 page, and one it leaves alone (range served) *)
+Definition ex_reply : reply :=
+  finishV (fun _ _ => None) (ex_req []) (mkFat 200 [] (B "page") SP_FULL true) (own_tuple (fun _ => ex_rules) (ex_req [])) true true.
+Example ex_replaced :
+  replaced (Some (Some (100, 201))) ex_reply /\ ~ replaced (Some (Some (1, 3))) ex_reply /\
+  (exists w, send_v (fun _ => ex_rules) (fun _ hs => hs) (B "ERR") true (ex_req []) (Some (Some (100, 201))) ex_reply = Ok w /\
+             w_status w = 416 /\ assoc (B "vary") (w_headers w) = Some (B "accept-encoding, range, x-a, X-Up, x bad")) /\
+  (exists w, send_v (fun _ => ex_rules) (fun _ hs => hs) (B "ERR") true (ex_req []) (Some (Some (1, 3))) ex_reply = Ok w /\
+             w_status w = 206 /\ w_body w = B "ag" /\
+             assoc (B "vary") (w_headers w) = Some (B "accept-encoding, range, x-a, X-Up, x bad")).
+Proof.
+  split; [exists (Some (100, 201)), E_RANGE; split; reflexivity|].
+  split; [intros (rg & e & Heq & A); inversion Heq; subst; vm_compute in A; discriminate|].
+  split; eexists; (split; [vm_compute; reflexivity|]); repeat split; vm_compute; reflexivity.
+Qed.
+
+(** a cache with one entry holding one variant of /v, computed by [ex_compute] for the request without headers *)
+Definition ex_cache : vcache :=
+  [ (KPath (B "/v"),
+     mkVE (mkVaried ex_rules [ (mkFat 200 [] (B "page") SP_FULL true, headers_for_request ex_rules (ex_req [])) ]) 500 None) ].
+Example ex_cache_inv : InvV N ex_compute (fun _ => ex_rules) ex_cache.
+Proof.
+  intros k e H. cbn [ex_cache pc_find] in H. destruct (key_eqb k (KPath (B "/v"))) eqn:E; [|discriminate].
+  inversion H; subst e; clear H. apply key_eqb_eq in E. subst k.
+  split; [repeat constructor|]. split; [discriminate|]. split; [reflexivity|].
+  intros f hc [Eq | []]. inversion Eq; subst. exists (ex_req []). split; [exists 0, true; reflexivity|]. split; reflexivity.
+Qed.
+(** a request whose own tuple (x-a class "hi") is not stored meets the condition of the 304 ... *)
+Example ex_ims_hit :
+  let r0 := ex_req [(B "if-modified-since", B "@T+100"); (B "x-a", B "zebra")] in
+  ims_hit true true parse_ims_fix (fun _ => true) (fun r => r) ex_cache 500 r0 (KPath (B "/v"))
+          (mkVE (mkVaried ex_rules [ (mkFat 200 [] (B "page") SP_FULL true, headers_for_request ex_rules (ex_req [])) ]) 500 None) ex_cache
+  /\ exists pos hc, vr_get_by_request (mkVaried ex_rules [ (mkFat 200 [] (B "page") SP_FULL true, headers_for_request ex_rules (ex_req [])) ]) r0
+                    = Ok (Miss pos hc).
+Proof.
+  split.
+  - repeat split; try reflexivity. exists (B "@T+100"), 100%Z. repeat split; vm_compute; reflexivity.
+  - eexists; eexists. vm_compute. reflexivity.
+Qed.
+(** ... and one that selects the stored variant (x-a absent or not text: default "lo") is told the truth *)
+Example ex_same_entry :
+  vr_get_by_request (mkVaried ex_rules [ (mkFat 200 [] (B "page") SP_FULL true, headers_for_request ex_rules (ex_req [])) ]) (ex_req [])
+  = Ok (Hit (mkFat 200 [] (B "page") SP_FULL true, headers_for_request ex_rules (ex_req [])))
+  /\ own_tuple (fun _ => ex_rules) (ex_req []) = own_tuple (fun _ => ex_rules) (ex_req [(B "x-a", [233])]).
+Proof. split; vm_compute; reflexivity. Qed.
+
+(** the hypotheses of [honest_not_modified_sound] are met by [ex_cache] (one entry under the path key), the client
+    of [ex_same_entry], a history of one wait and one request of another client, and a date of 500 ms *)
+Example ex_honest :
+  InvV N ex_compute (fun _ => ex_rules) ex_cache /\
+  (pc_find (key_pq (ex_req [])) ex_cache = None \/ pc_find (key_p (ex_req [])) ex_cache = None) /\
+  holds_copy (fun _ => ex_rules) ex_cache (ex_req []) (mkFat 200 [] (B "page") SP_FULL true) 500 /\
+  later 500 500 [OWait 2000; OReq (ex_req [(B "x-a", B "zebra")])] /\
+  ~ later 500 500 [OReq (ex_req [(B "x-a", B "zebra")])].
+Proof.
+  split; [exact ex_cache_inv|]. split; [left; reflexivity|]. split.
+  - left. exists (KPath (B "/v")), (mkVE (mkVaried ex_rules [ (mkFat 200 [] (B "page") SP_FULL true, headers_for_request ex_rules (ex_req [])) ]) 500 None).
+    split; [right; reflexivity|]. split; [reflexivity|]. split; [vm_compute; reflexivity|]. cbn [ve_created]. lia.
+  - split; [cbn; lia | cbn; lia].
 Qed.
